@@ -79,4 +79,10 @@ class Pool:
             raise HarnessError("worker process died (watchdog or crash): %r" % (e,))
 
     def close(self):
+        procs = list((getattr(self.ex, "_processes", None) or {}).values())
         self.ex.shutdown(wait=False, cancel_futures=True)
+        for p in procs:  # never leave a worker behind holding our stdout
+            try:
+                p.kill()
+            except Exception:
+                pass
